@@ -115,10 +115,11 @@ def run(prop):
                                % (cfg, unattributed[:3], p.stderr[-800:]))
         for i, k in enumerate(ks):
             errs = per[i]
-            want = k['probe']['expect_codes']
+            want = k['probe'].get('expect_codes', [])
+            want_text = k['probe'].get('expect_text', [])       # for errors that carry no code
             if not errs:
                 status = 'gone'
-            elif any(e.split(' ')[0] in want for e in errs):
+            elif any(e.split(' ')[0] in want for e in errs) or any(t in e for t in want_text for e in errs):
                 status = 'reproduced'
             else:
                 status = 'different'
